@@ -196,6 +196,28 @@ def header_layouts(ctx, hpath, hname):
     return dec, enc, linear and off
 
 
+def wire_codecs(ctx):
+    """Scalar wire codecs of the time types (shared with C32): the 32-bit duration formats are read unsigned and shifted by the amount the
+    encoder shifts back; timestamps are the 64 bits as they are."""
+    P = ctx.P
+    T = 'ntp_proto::time_types::NtpDuration::'
+    for dn, en, sh in (('from_bits_short', 'to_bits_short', 16), ('from_bits_time32', 'to_bits_time32', 4)):
+        db, eb = P.body(T + dn), P.body(T + en)
+        dv = [v for _, v in ret_assigns(db)]
+        src = [db.callee(c)['def'] for c in db.calls(r'from_be_bytes$')]
+        ctx.check('NtpDuration|%s|unsigned-shift' % dn, dv == ['NtpDuration{duration: ((num::from_be_bytes(bits) as i64) << %d)}' % sh] and len(src) == 1 and '<impl u32>' in src[0],
+                  '%s is %s via %s: a value with the top bit set must decode to a non-negative duration (the encoder asserts duration >= 0)' % (dn, dv, src), sample=[dv, src])
+        ev = [v for _, v in ret_assigns(eb)]
+        dst = [eb.callee(c)['def'] for c in eb.calls(r'to_be_bytes$')]
+        ctx.check('NtpDuration|%s|same-shift' % en, len(ev) == 1 and re.search(r'self\.duration( & \d+\))? >> %d\)' % sh, ev[0]) is not None and len(dst) == 1 and '<impl u32>' in dst[0],
+                  '%s is %s' % (en, ev), sample=ev)
+    ts = 'ntp_proto::time_types::NtpTimestamp::'
+    dv = [v for _, v in ret_assigns(P.body(ts + 'from_bits'))]
+    ev = [v for _, v in ret_assigns(P.body(ts + 'to_bits'))]
+    ctx.check('NtpTimestamp|bits-codec', dv == ['NtpTimestamp{timestamp: num::from_be_bytes(bits)}'] and ev == ['num::to_be_bytes(self.timestamp)'], 'NtpTimestamp codec %s / %s' % (dv, ev), sample=[dv, ev])
+
+
+
 def r5(ctx):
     ctx.rule('C24-R5', 'fixed header layout: every field the decoder reads from bytes [a, a+n) is written by the encoder at the same offset with the same '
              'length through the inverse codec function (NTPv3/4 and NTPv5 headers, 48 bytes each); the 32-bit duration codecs agree: the decoder '
@@ -215,21 +237,7 @@ def r5(ctx):
             ctx.check('%s|%s|same-place-inverse-codec' % (tag, fld), ok, 'field %s: decoded from bytes %s..%s with %s, encoded %s' % (
                 fld, a, a + n, fn, 'nowhere' if ea is None else 'at %s..%s with %s' % (ea[0], ea[0] + ea[1], ea[2])), sample=[a, n, fn, ea[2] if ea else None])
         ctx.check('%s|no-extra-encoded-field' % tag, set(enc) <= set(dec), 'encoded but not decoded: %s' % sorted(set(enc) - set(dec)), sample=sorted(enc))
-    T = 'ntp_proto::time_types::NtpDuration::'
-    for dn, en, sh in (('from_bits_short', 'to_bits_short', 16), ('from_bits_time32', 'to_bits_time32', 4)):
-        db, eb = P.body(T + dn), P.body(T + en)
-        dv = [v for _, v in ret_assigns(db)]
-        src = [db.callee(c)['def'] for c in db.calls(r'from_be_bytes$')]
-        ctx.check('NtpDuration|%s|unsigned-shift' % dn, dv == ['NtpDuration{duration: ((num::from_be_bytes(bits) as i64) << %d)}' % sh] and len(src) == 1 and '<impl u32>' in src[0],
-                  '%s is %s via %s: a value with the top bit set must decode to a non-negative duration (the encoder asserts duration >= 0)' % (dn, dv, src), sample=[dv, src])
-        ev = [v for _, v in ret_assigns(eb)]
-        dst = [eb.callee(c)['def'] for c in eb.calls(r'to_be_bytes$')]
-        ctx.check('NtpDuration|%s|same-shift' % en, len(ev) == 1 and re.search(r'self\.duration( & \d+\))? >> %d\)' % sh, ev[0]) is not None and len(dst) == 1 and '<impl u32>' in dst[0],
-                  '%s is %s' % (en, ev), sample=ev)
-    ts = 'ntp_proto::time_types::NtpTimestamp::'
-    dv = [v for _, v in ret_assigns(P.body(ts + 'from_bits'))]
-    ev = [v for _, v in ret_assigns(P.body(ts + 'to_bits'))]
-    ctx.check('NtpTimestamp|bits-codec', dv == ['NtpTimestamp{timestamp: num::from_be_bytes(bits)}'] and ev == ['num::to_be_bytes(self.timestamp)'], 'NtpTimestamp codec %s / %s' % (dv, ev), sample=[dv, ev])
+    wire_codecs(ctx)
 
 
 RULES = [r1, r2, r3, r4, r5]
